@@ -276,6 +276,7 @@ def refute_and_replay(o, frb, K, pid):
     s = z3.Solver()
     s.set('timeout', 15000)
     s.add(*inst)
+    s.add(*[f for _, f in solve.ghost_axiom_instances(fs)])
     s.add(*fs)
     if s.check() != z3.sat:
         return None
